@@ -22,7 +22,7 @@ type Case struct {
 	Key     string `json:"key"`
 	Usage   uint32 `json:"usage"`
 	Data    string `json:"data"`
-	Variant string `json:"variant"`        // value correct prefix extend bitflip otherdata otherkey otherusage typemap
+	Variant string `json:"variant"`        // value correct prefix extend bitflip otherdata otherkey otherkey-inplace otherkeylen otherusage typemap
 	A       int    `json:"a"`              // prefix length | appended byte | bit index | other usage | type id
 	Other   string `json:"other"`          // other data | other key
 	Then    int32  `json:"then,omitempty"` // afterwards compute the same (key octets, usage, data) under this sibling checksum type of equal key length
@@ -149,6 +149,22 @@ func eval1(c Case) (evid.Verdict, bool) {
 				trivial = true
 				return evid.Pass()
 			}
+		case "otherkey-inplace":
+			// the caller's key buffer is overwritten with another key of the same length: the verdict and the value are
+			// those of the key the buffer holds now
+			o, _ := hex.DecodeString(c.Other)
+			if bytes.Equal(o, key) || len(o) != len(key) {
+				trivial = true
+				return evid.Pass()
+			}
+			copy(key, o)
+			w2, err := ref.Checksum(c.Ck, o, c.Usage, data)
+			if err != nil {
+				return evid.Fail("harness", "reference checksum failed: %v", err)
+			}
+			if g, err := et.GetChecksumHash(key, data, c.Usage); err != nil || !bytes.Equal(g, w2) {
+				return evid.Fail(fmt.Sprintf("value:key-inplace:cksum%d", c.Ck), "after the key buffer was overwritten with another key, GetChecksumHash = %x (%v), RFC value for the key now in the buffer %x (for the earlier key %x)", g, err, w2, want)
+			}
 		case "otherkeylen":
 			// another key of another length (one that another checksum type would take, or none): whatever is
 			// presented - the checksum computed under the right key, the empty string, nil - is not "that value"
@@ -230,7 +246,7 @@ func TestProp(t *testing.T) {
 			r.Violation(check, c, v)
 		}
 	}
-	r.Rule("rapid: checksum type {12,15,16,19,20,-138} x data length 0..200 x usage set x random key; variant from {value equality with the reference, correct verification, proper prefix, one-byte extension, bit flip, other data, other key, a key of another length (0..64 octets) with the right-key checksum / the empty string / nil presented, other usage (rc4 aliases skipped)}; every case compares against the independent value, distinct by (type,len,usage,variant,arg)")
+	r.Rule("rapid: checksum type {12,15,16,19,20,-138} x data length 0..200 x usage set x random key; variant from {value equality with the reference, correct verification, proper prefix, one-byte extension, bit flip, other data, other key (in a fresh slice, or written over the key buffer in place), a key of another length (0..64 octets) with the right-key checksum / the empty string / nil presented, other usage (rc4 aliases skipped)}; every case compares against the independent value, distinct by (type,len,usage,variant,arg)")
 	r.Rapid("cksum", r.N(8000, 200000), func(t *rapid.T) {
 		ck := rapid.SampledFrom(ref.CksumTypes).Draw(t, "cksumtype")
 		et := ref.ETypeForCksum(ck)
@@ -238,7 +254,7 @@ func TestProp(t *testing.T) {
 		c.Key = hex.EncodeToString(kgen.Key(t, et, "key"))
 		c.Data = hex.EncodeToString(kgen.Bytes(t, "data", rapid.IntRange(0, 200).Draw(t, "len")))
 		cl := ref.CksumLen(et)
-		c.Variant = rapid.SampledFrom([]string{"value", "correct", "prefix", "extend", "bitflip", "otherdata", "otherkey", "otherkeylen", "otherusage"}).Draw(t, "variant")
+		c.Variant = rapid.SampledFrom([]string{"value", "correct", "prefix", "extend", "bitflip", "otherdata", "otherkey", "otherkey-inplace", "otherkeylen", "otherusage"}).Draw(t, "variant")
 		switch c.Variant {
 		case "prefix":
 			c.A = rapid.IntRange(0, cl-1).Draw(t, "plen")
@@ -248,7 +264,7 @@ func TestProp(t *testing.T) {
 			c.A = rapid.IntRange(0, cl*8-1).Draw(t, "bit")
 		case "otherdata":
 			c.Other = hex.EncodeToString(rapid.SliceOfN(rapid.Byte(), 0, 40).Draw(t, "otherdata"))
-		case "otherkey":
+		case "otherkey", "otherkey-inplace":
 			c.Other = hex.EncodeToString(kgen.Key(t, et, "otherkey"))
 		case "otherkeylen":
 			c.Other = hex.EncodeToString(kgen.Bytes(t, "otherkey", rapid.SampledFrom([]int{0, 1, 8, 15, 16, 17, 24, 32, 33, 64}).Draw(t, "otherkeylen")))
@@ -353,6 +369,8 @@ func TestProp(t *testing.T) {
 		judge("enum", c, nil)
 		c = base
 		c.Variant, c.Other = "otherkey", hex.EncodeToString(ref.RandomKey(et, kgen.DetBytes(r.Seed(), lbl+"/k2", 32)))
+		judge("enum", c, nil)
+		c.Variant = "otherkey-inplace"
 		judge("enum", c, nil)
 		for _, kl := range []int{0, 8, 16, 24, 32} {
 			for a := 0; a <= 2; a++ {
